@@ -15,7 +15,7 @@ PROPERTY = {
         'the oracle (engine/refmodel.py) is validated against the maintainers\' dict/ and list/ fixtures (###EXPECTED) on every run',
     ],
     'bounds': {'stages': '2 (quick) / 2..3 (thorough)', 'focus depth': '0..2 below the root, prefix keys from {w, x} so that keys below the deleting node coincide with ancestor keys',
-               'older content': '3 variants (mapping with nested mapping, list, mapping with ancestor-named key), priority sites on 2 entries + literal !force on a third',
+               'older content': '5 variants (incl. falsy leaves with an inherited-mode list, protected empty containers) - originally 3 variants (mapping with nested mapping, list, mapping with ancestor-named key), priority sites on 2 entries + literal !force on a third',
                'newer node': '6 variants (mapping, nested mapping, list, mapping with ancestor-named weak key, empty mapping, value-less !del), delete in {absent,T,F}, priority in {absent,-1,0,1}'},
     'outside': ['deleting list over a list whose elements have different priorities', 'type change at the focus while older entries are protected',
                 'value-less !del of a key that does not exist', 'lists nested below a !merge node (recursion of the mode is not stated)'],
@@ -36,6 +36,9 @@ def older_spec(v, sa, sb):
     if v == 3:
         # falsy leaves and a list that inherits its mode from the newer mapping's tag
         return ('m', [('l', ('l', [('s', 1), ('s', 2)], sa)), ('e', ('s', 0, sb)), ('f', ('s', 3)), ('h', ('s', '', None, "''"))], None)
+    if v == 4:
+        # protected EMPTY containers below the focus
+        return ('m', [('x', ('m', [], sa)), ('y', ('l', [], sb)), ('z', ('s', 1)), ('n', ('m', [('e', ('m', [], None))], None))], None)
     raise ValueError(v)
 
 
@@ -52,6 +55,8 @@ def newer_spec(v, sn):
         return ('m', [], sn)
     if v == 5:
         return ('vd',)
+    if v == 7:
+        return ('l', [('l', [], None), ('s', 5), ('m', [], None)], sn)      # empty containers as elements of a newer list
     if v == 6:
         return ('m', [('l', ('l', [('s', 0)], None)), ('e', ('s', '', None, "''")), ('f', ('s', False, None, 'false')), ('h', ('s', None, None, 'null')), ('g', ('s', 0))], sn)
     raise ValueError(v)
@@ -164,11 +169,17 @@ def c04_clear(split, k):
 def _splits_delete(tier):
     out = []
     for prefix in range(len(PREFIXES)):
-        for older in range(4):
-            for newer in range(7):
-                if (older == 3) != (newer == 6) and not (older == 3 and newer in (4, 5)):
+        for older in range(5):
+            for newer in range(8):
+                if older == 4:
+                    if newer not in (0, 1, 4, 5):
+                        continue
+                elif newer == 7:
+                    if older != 1:
+                        continue
+                elif (older == 3) != (newer == 6) and not (older == 3 and newer in (4, 5)):
                     continue
-                if tier == 'quick' and prefix == 2:
+                if tier == 'quick' and (prefix == 2 or (prefix == 1 and (older >= 3 or newer >= 6)) or (prefix == 3 and older in (0, 1) and newer in (1, 2, 4))):
                     continue
                 out.append({'prefix': prefix, 'older': older, 'newer': newer, 'third': False})
                 if tier != 'quick' and newer in (0, 4, 5):
